@@ -32,6 +32,7 @@ SchemaSpecs ==
     \cup {BaseSpec("inf_norm", d, 0, 2) @@ [hasmin |-> b[1], hasmax |-> b[2], min |-> b[3], max |-> b[4]] : d \in Dims,
              b \in {<<TRUE, TRUE, -2, 2>>, <<TRUE, FALSE, 1, 0>>, <<FALSE, TRUE, 0, 3>>, <<TRUE, TRUE, 1, 1>>}}
     \cup {BaseSpec("new", d, 0, 1) : d \in Dims}
+    \cup {BaseSpec("argmax", 4, 0, 1)} \cup {BaseSpec("class_characterization", 4, 0, 1) @@ [clazz |-> c] : c \in {1, 3}}      \* four components
 ValidSpec(s) == s.row < s.dim /\ ("clazz" \in DOMAIN s => s.clazz < s.dim)
 Rows2 == {<<<<1, 0>>, 1>>, <<<<0, 1>>, 0>>, <<<<-1, -1>>, 1>>, <<<<1, 1>>, 2>>, <<<<0, 0>>, 1>>, <<<<0, 0>>, -1>>, <<<<-1, 0>>, -1>>}
 PolyOfRows(rs) == [m |-> [i \in 1..Len(rs) |-> rs[i][1]], b |-> [i \in 1..Len(rs) |-> rs[i][2]], q |-> 1, n |-> 2]
@@ -96,19 +97,21 @@ Nets ==
                        : fl \in First \cup {<<2, W(<<<<1, 0>>, <<0, 1>>>>, <<0, 0>>)>>}}
         Again == UNION {{[dim |-> fl[1], layers |-> <<fl[2], ActLayer(kd, 0), CHOOSE x \in Lin22 : TRUE, ActLayer(kd, 0)>>, pre |-> [kind |-> "none"]]
                             : kd \in {"relu", "hard_tanh"}} : fl \in First}
-    IN One \cup Two \cup Twice \cup Wide \cup LinLin \cup Bare \cup Again
+        \* linear layers only, under a precondition (the tree must stay undefined outside it)
+        LinPre == UNION {{[dim |-> fl[1], layers |-> <<fl[2]>> \o tl, pre |-> pr] : tl \in {<<>>, <<CHOOSE x \in Lin22 : TRUE>>}, pr \in Pres(fl[1]) \ {[kind |-> "none"]}} : fl \in First}
+    IN One \cup Two \cup Twice \cup Wide \cup LinLin \cup Bare \cup Again \cup LinPre
 
 \* ---------------------------------------------------------------- C18: builder calls
 Call(nm, args) == [call |-> nm] @@ args
 LinCalls == {Call("linear", [a |-> Aff(m, b)]) : m \in {<<<<1, -1>>, <<1, 1>>>>, <<<<1, 0>>>>, <<<<1>>, <<-1>>>>, <<<<2>>>>}, b \in {<<0>>}} 
 FixBias(c) == [c EXCEPT !.a.b = [i \in 1..Len(c.a.m) |-> IF i = 1 THEN 1 ELSE -1]]
 Calls == {FixBias(c) : c \in LinCalls}
-         \cup {Call(nm, [idx |-> i]) : nm \in {"partial_relu", "partial_hard_tanh", "partial_hard_sigmoid", "partial_leaky_relu"}, i \in 0..2}
+         \cup {Call(nm, [idx |-> i]) : nm \in {"partial_relu", "partial_hard_tanh", "partial_hard_sigmoid", "partial_leaky_relu", "partial_leaky_relu_one"}, i \in 0..2}
          \cup {Call(nm, [idx |-> 0]) : nm \in {"relu", "leaky_relu", "hard_tanh", "hard_sigmoid", "argmax"}}
 \* the specification of the builder: accepted iff compatible with the current output dimension; shape after the call
 Accepts(shape, c) ==
     CASE c.call = "linear" -> Cols(c.a.m) = shape
-      [] c.call \in {"partial_relu", "partial_hard_tanh", "partial_hard_sigmoid", "partial_leaky_relu"} -> c.idx < shape
+      [] c.call \in {"partial_relu", "partial_hard_tanh", "partial_hard_sigmoid", "partial_leaky_relu", "partial_leaky_relu_one"} -> c.idx < shape
       [] c.call = "argmax" -> shape >= 2
       [] OTHER -> TRUE
 ShapeAfter(shape, c) == IF ~Accepts(shape, c) THEN shape ELSE CASE c.call = "linear" -> Len(c.a.m) [] c.call = "argmax" -> 1 [] OTHER -> shape
@@ -118,6 +121,7 @@ LayersOf(shape, c) ==
       [] c.call = "partial_relu" -> <<[k |-> "relu", row |-> c.idx]>>
       [] c.call = "relu" -> [j \in 1..shape |-> [k |-> "relu", row |-> j - 1]]
       [] c.call = "partial_leaky_relu" -> <<ActLayer("leaky", c.idx)>>
+      [] c.call = "partial_leaky_relu_one" -> <<[k |-> "leaky", row |-> c.idx, q |-> 2, alpha |-> 2]>>          \* slope exactly 1
       [] c.call = "leaky_relu" -> [j \in 1..shape |-> ActLayer("leaky", j - 1)]
       [] c.call = "partial_hard_tanh" -> <<[k |-> "hard_tanh", row |-> c.idx]>>
       [] c.call = "hard_tanh" -> [j \in 1..shape |-> [k |-> "hard_tanh", row |-> j - 1]]
@@ -135,8 +139,9 @@ NpzMat(x) == CASE x = "L12" -> [m |-> <<<<1>>, <<-1>>>>, b |-> <<0, 1>>] [] x = 
 NpzEntries(net, ext, withLayers) ==
     LET E(i) == IF net[i] \in {"relu", "hard_tanh", "hard_sigmoid"}
                 THEN <<[name |-> Pad3(i - 1) \o "." \o net[i] \o ext, kind |-> "marker", data |-> <<>>]>>
-                ELSE <<[name |-> Pad3(i - 1) \o ".linear.weights" \o ext, kind |-> "weights", data |-> NpzMat(net[i]).m],
-                       [name |-> Pad3(i - 1) \o ".linear.bias" \o ext, kind |-> "bias", data |-> NpzMat(net[i]).b]>>
+                \* bias first: members are found by name, not by their position relative to the weights
+                ELSE <<[name |-> Pad3(i - 1) \o ".linear.bias" \o ext, kind |-> "bias", data |-> NpzMat(net[i]).b],
+                       [name |-> Pad3(i - 1) \o ".linear.weights" \o ext, kind |-> "weights", data |-> NpzMat(net[i]).m]>>
         RECURSIVE G(_)
         G(i) == IF i > Len(net) THEN <<>> ELSE G(i + 1) \o E(i)             \* written in reverse archive order: read_layers must sort
     IN G(1) \o (IF withLayers THEN <<[name |-> Pad3(Len(net)) \o ".layers" \o ext, kind |-> "marker", data |-> <<>>]>> ELSE <<>>)
